@@ -7,7 +7,11 @@
 (*   Finish(a,v)   the PU level with one of the index specifications,      *)
 (*                 variant v (explicit sizes, NUMA indexes)                *)
 (*   SetSynthetic  hwloc_topology_set_synthetic(Render(d))                 *)
-(*   Load          hwloc_topology_load: abs = BuildDo(d)                   *)
+(*   SetFilters    hwloc_topology_set_type_filter calls (before or after   *)
+(*                 set_synthetic): one class per level type of the         *)
+(*                 description and filter kind that differs from the       *)
+(*                 default, pairs of them, refused calls                   *)
+(*   Load          hwloc_topology_load: abs = BuildDo(d, filters)          *)
 (*   Perturb       hwloc_topology_restrict dropping one PU / NUMA node     *)
 (*   Export        hwloc_topology_export_synthetic with every flag word,   *)
 (*                 reload, re-export (performed by the recorder)           *)
@@ -31,16 +35,20 @@ CONSTANTS Family,        \* "typed" or "untyped"
           IdxKinds,      \* subset of {"none", "list", "types", "loops"}
           Perturbs,      \* subset of {"none", "cpu", "node"}
           PermLv,        \* every permutation of 4 PUs is tried when at most PermLv levels were added
+          MaxFlt,        \* 0: default type filters; 1: one set_type_filter call; 2: also two calls and the refused calls
+          Lates,         \* subset of BOOLEAN: the filter calls come after (TRUE) / before (FALSE) set_synthetic
           NStripes, Stripe
-VARIABLES st, d, abs, pert
+VARIABLES st, d, abs, pert, flt, late
 
-vars == <<st, d, abs, pert>>
+vars == <<st, d, abs, pert, flt, late>>
 
 SpellSeq(T) == CASE T = PACKAGE -> <<"pack", "Package", "pa">> [] T = DIE -> <<"die", "Die", "di">>
                  [] T = CORE -> <<"core", "Core", "co">> [] T = PU -> <<"pu", "PU", "Pu">>
                  [] T = GROUP -> <<"group", "Group", "gr">> [] T = NUMANODE -> <<"node", "NUMANode", "nu">>
                  [] T = L1 -> <<"l1", "L1Cache", "l1d">> [] T = L2 -> <<"l2", "L2Cache", "l2u">>
                  [] T = L3 -> <<"l3", "L3Cache", "l3u">>
+                 [] T = L1I -> <<"l1i", "L1iCache", "l1icache">> [] T = L2I -> <<"l2i", "L2iCache", "l2icache">>
+                 [] T = L3I -> <<"l3i", "L3iCache", "l3icache">>
 Spell(T) == IF T = UNTYPED THEN "" ELSE SpellSeq(T)[Style]
 ASSUME \A T \in LevelTypes \cup {PU} : \A k \in 1..3 : SpellSeq(T)[k] \in Spellings(T)
 
@@ -50,7 +58,7 @@ PadT == IF Family = "untyped" THEN UNTYPED ELSE GROUP
 
 Init == /\ st = "build"
         /\ d = [rattr |-> <<>>, ratt |-> <<>>, lv |-> [i \in 1..Deep |-> Lvl(PadT, 1)]]
-        /\ abs = [depth |-> 0] /\ pert = <<>>
+        /\ abs = [depth |-> 0] /\ pert = <<>> /\ flt = <<>> /\ late = FALSE
 
 Built == Len(d.lv) - Deep          \* levels added by AddLevel
 CurWidth == WidthAt(d, Len(d.lv))
@@ -60,7 +68,7 @@ NGroups == Cardinality({i \in (Deep + 1)..Len(d.lv) : d.lv[i].T = GROUP})
 AddAtt == /\ st = "build" /\ ~HasNumaLevel(d) /\ Len(AllAtt(d)) < MaxAtt
           /\ IF Built = 0 THEN Len(d.ratt) < 2 /\ d' = [d EXCEPT !.ratt = Append(@, Att0)]
              ELSE Len(d.lv[Len(d.lv)].att) < 2 /\ d' = [d EXCEPT !.lv[Len(d.lv)].att = Append(@, Att0)]
-          /\ UNCHANGED <<st, abs, pert>>
+          /\ UNCHANGED <<st, abs, pert, flt, late>>
 
 AddLevel(T, a) ==
   /\ st = "build" /\ Built < MaxLv /\ CurWidth * a <= MaxPU
@@ -70,7 +78,7 @@ AddLevel(T, a) ==
           /\ T = NUMANODE => ~HasNumaLevel(d) /\ AllAtt(d) = <<>>
           /\ TypeRank(T) > 0 => TypeRank(T) > MaxRank
   /\ d' = [d EXCEPT !.lv = Append(@, Lvl(T, a))]
-  /\ UNCHANGED <<st, abs, pert>>
+  /\ UNCHANGED <<st, abs, pert, flt, late>>
 
 \* ---- index specifications offered for a level of width n ----
 Perms(n) == {f \in [1..n -> 0..(n - 1)] : \A a, b \in 1..n : a # b => f[a] # f[b]}
@@ -128,13 +136,32 @@ Finish(a, v) ==
      /\ Applicable(d1, v)
      /\ \E x \in IdxChoices(Variant(d1, v), NL(d1)) : d' = [Variant(d1, v) EXCEPT !.lv[NL(d1)].idx = x]
   /\ st' = "text"
-  /\ UNCHANGED <<abs, pert>>
+  /\ UNCHANGED <<abs, pert, flt, late>>
 
-SetSynthetic == /\ st = "text" /\ st' = "set" /\ UNCHANGED <<d, abs, pert>>
+\* ---- type filters of the topology the description is loaded into ----
+\* the classes are computed from the description: every type that one of its levels has (a filter on another type
+\* changes nothing), with every kind that differs from the default of that type; then pairs of those on different
+\* types, and the calls that the documentation says are refused
+FltTypes == {d.lv[i].T : i \in (Deep + 1)..(NL(d) - 1)} \ {NUMANODE, UNTYPED, PU, GROUP}
+KindsFor(T) == IF T = GROUP THEN {KEEP_NONE}
+               ELSE IF T \in ICacheTypes THEN {KEEP_ALL, KEEP_STRUCTURE, KEEP_IMPORTANT} ELSE {KEEP_NONE, KEEP_STRUCTURE}
+\* (MaxFlt = 3 adds "Groups ignored": hwloc then hangs the memory of a NUMA level or of an ignored level on whatever
+\* object existed when the node was inserted, which no documentation describes - not used by the check)
+Singles == UNION {{<<T, k>> : k \in KindsFor(T)} : T \in FltTypes \cup (IF MaxFlt >= 3 THEN {GROUP} ELSE {})}
+Refused == {<<PU, KEEP_NONE>>, <<GROUP, KEEP_ALL>>, <<NUMANODE, KEEP_STRUCTURE>>}
+FltChoices ==
+  IF Family = "untyped" \/ MaxFlt = 0 THEN {<<>>}
+  ELSE {<<>>} \cup {<<c>> : c \in Singles}
+       \cup (IF MaxFlt >= 2 THEN {<<a, b>> : a \in Singles \cup Refused, b \in Singles} \ {<<a, a>> : a \in Singles} ELSE {})
+SetFilters == /\ st = "text" /\ st' = "flt"
+              /\ \E c \in FltChoices, lt \in Lates : flt' = c /\ late' = (lt /\ c # <<>>)
+              /\ UNCHANGED <<d, abs, pert>>
+
+SetSynthetic == /\ st = "flt" /\ st' = "set" /\ UNCHANGED <<d, abs, pert, flt, late>>
 
 Load == /\ st = "set" /\ st' = "loaded"
-        /\ abs' = BuildDo(d)
-        /\ UNCHANGED <<d, pert>>
+        /\ abs' = BuildDo(d, FltOf(flt))
+        /\ UNCHANGED <<d, pert, flt, late>>
 
 \* perturbations that certainly leave an asymmetric tree / asymmetric memory
 LastPU == PUos(abs)[Len(PUos(abs))]
@@ -146,14 +173,14 @@ Perturb(kind) ==
        [] kind = "node" -> CanDropNode /\ pert' = <<"node", abs.numa[1].os>>
        [] OTHER -> pert' = <<>>
   /\ st' = "pert"
-  /\ UNCHANGED <<d, abs>>
+  /\ UNCHANGED <<d, abs, flt, late>>
 
-Export == /\ st = "pert" /\ st' = "done" /\ UNCHANGED <<d, abs, pert>>
+Export == /\ st = "pert" /\ st' = "done" /\ UNCHANGED <<d, abs, pert, flt, late>>
 
 Next == \/ AddAtt
         \/ \E T \in LevelTypes \cup {UNTYPED}, a \in Arities : AddLevel(T, a)
         \/ \E a \in Arities, v \in Variants : Finish(a, v)
-        \/ SetSynthetic \/ Load
+        \/ SetFilters \/ SetSynthetic \/ Load
         \/ \E k \in {"none", "cpu", "node"} : Perturb(k)
         \/ Export
 Spec == Init /\ [][Next]_vars
@@ -164,7 +191,7 @@ DescInv == st # "build" =>
   /\ IdxOK(d, NL(d), d.lv[NL(d)].idx, NPU(d))
   /\ HasNumaLevel(d) => LET i == FirstLevelOf(d, NUMANODE) IN IdxOK(d, i, d.lv[i].idx, WidthAt(d, i))
   /\ Len(AttIdxList(d)) = Cardinality(AttInst(d)) /\ NoDup(AttIdxList(d))
-BuildInv == st = "loaded" => BuildRel(d, abs)
+BuildInv == st = "loaded" => BuildRel(d, FltOf(flt), abs)
 \* a synthetic build is symmetric, so is its memory; the two export obligations never conflict
 ExportInv == st = "loaded" =>
   /\ abs.rsym = 1 /\ MemSym(abs)
@@ -178,6 +205,7 @@ IdxFinger(idx) == IF idx.k = "list" THEN WSum(idx.v, 1) ELSE IF idx.k = "loops" 
 RECURSIVE Finger(_, _)
 Finger(lv, i) == IF i > Len(lv) THEN 0
                  ELSE (lv[i].T + 2) * 7 + lv[i].ar * 3 + Len(lv[i].att) * 5 + IdxFinger(lv[i].idx) + Len(lv[i].size) + 3 * Finger(lv, i + 1)
-Emit == (st = "done" /\ (Finger(d.lv, Deep + 1) + Len(d.ratt) + Len(pert)) % NStripes = Stripe)
-           => PrintT(<<"BEH", ToJson([d |-> d, text |-> Render(d), pert |-> pert])>>)
+FltFinger == WSum([k \in DOMAIN flt |-> flt[k][1] * 4 + flt[k][2]], 1) + (IF late THEN 1 ELSE 0)
+Emit == (st = "done" /\ (Finger(d.lv, Deep + 1) + Len(d.ratt) + Len(pert) + FltFinger) % NStripes = Stripe)
+           => PrintT(<<"BEH", ToJson([d |-> d, text |-> Render(d), pert |-> pert, flt |-> flt, late |-> late])>>)
 =============================================================================
